@@ -5,6 +5,7 @@
         P is the property oracle SpecC13.actOk on them.
     c13.pipe <plugin> <cfg hex> <ps> <nl> <label>… <n> events… | in=<a> out=<k> <status>×k left=<m>
         the action inside a real pipeline; no model column either (M echoes), P = SpecC13.pipeOk
+    c13.pipeout …same… | in=<a> out=0 left=<m>     with the real stdout output plugin
     c13.registry <n> <name>… | <n> <name>…          M = the names the generator has a grammar for
     c13.subst <nf> <filter>… <src hex> | ok <hex> | panic:<kind> | cfg-rejected
         filter: cut first|last <n> | trimto all|left|right <hex> | trim all|left|right <hex>
@@ -185,7 +186,7 @@ def handleMove (args impl : List String) : Option (String × String) :=
 def handle (cmd : String) (args impl : List String) : Option (String × String) :=
   if cmd = "c13.act" then
     some (unwords impl, okTok (SpecC13.actOk impl))
-  else if cmd = "c13.pipe" then
+  else if cmd = "c13.pipe" ∨ cmd = "c13.pipeout" then
     some (unwords impl, okTok (SpecC13.pipeOk impl))
   else if cmd = "c13.registry" then
     some (unwords args, okTok (args == impl))
